@@ -56,6 +56,13 @@ pub fn harvest(rep: &mut Rep, w: &mut World, case: &str) -> usize {
     let prop = rep.prop.clone();
     let mut n = 0;
     for v in w.take_viols() {
+        // run() giving up on a connection on which nothing terminating happened defeats whatever the property under test
+        // promises for that connection (messages not delivered, acknowledgements not written, operations never completed)
+        if v.sig.starts_with("run-returned-without-cause") && !v.props.contains(&prop.as_str()) && matches!(prop.as_str(), "C05" | "C06" | "C07" | "C08" | "C09" | "C10" | "C11" | "C16" | "C17") {
+            rep.violation(&format!("{prop}/connection-given-up/{}", v.sig), case, &v.detail);
+            n += 1;
+            continue;
+        }
         if v.props.contains(&prop.as_str()) || v.props.contains(&"*") {
             let sig = if v.props.contains(&"*") { format!("{}/{}", prop, v.sig) } else { v.sig.clone() };
             rep.violation(&sig, case, &v.detail);
@@ -146,10 +153,12 @@ pub fn walk_world(rep: &mut Rep, name: &str, walks: u64, steps: usize, mk: &dyn 
         }
         // every second walk varies the size of inbound messages across the client's buffer steps
         w.size_mix = k % 2 == 1;
+        // ... and gives every third publish rarely used options of boundary sizes (only where no Maximum Packet Size limits them)
+        w.rich_pubs = k % 4 >= 2 && w.max_packet.is_none();
         // every third walk starts with the identifier counters at a boundary (hook H2); nothing has been allocated yet
         if k % 3 == 1 && w.m.is_empty() {
             let pids = [200u16, 250, 255, 256, 300, 0x7ff0, 0x7fff, 0xfff0, 65530, 65535];
-            let sids = [100u32, 127, 128, 16380, 16384, 2_097_150, 2_097_152, 268_435_400];
+            let sids = [100u32, 127, 128, 16380, 16384, 2_097_150, 2_097_152, 268_400_000];
             if let Some(h) = w.sim.handles[0].as_ref() {
                 h.verif_seed_ids(pids[(k / 3) as usize % pids.len()], sids[(k / 7) as usize % sids.len()]);
             }
